@@ -8,6 +8,7 @@ package c09
 // the main loop; nothing here judges them.
 
 import (
+	"bytes"
 	"fmt"
 	"go/ast"
 	"go/token"
@@ -257,6 +258,74 @@ func headerContext(env *pkgEnv, file string, from, to int) string {
 				if x.Init != nil && inside(x.Init) {
 					return "in-switch-init:"
 				}
+			}
+		}
+	}
+	return ""
+}
+
+var lastImportErr string
+
+// retypedWithImport applies the fix AND adds the import of the package the fix names; it reports a class when the
+// package still does not type-check or the replaced expression changed its type ("" otherwise or when not applicable).
+func retypedWithImport(dir string, env *pkgEnv, fd found, src, repl []byte, pkgName string) string {
+	path, ok := stdImports[pkgName]
+	if !ok || env.errs != 0 {
+		return ""
+	}
+	var origExpr ast.Expr
+	for _, f := range env.files {
+		if env.fset.Position(f.Pos()).Filename != fd.file {
+			continue
+		}
+		p, exact := astutil.PathEnclosingInterval(f, fd.w.Suggestion.From, fd.w.Suggestion.To)
+		if exact && len(p) > 0 {
+			origExpr, _ = p[0].(ast.Expr)
+		}
+	}
+	// insert the import right after the package clause line
+	nl := bytes.IndexByte(src, '\n')
+	for nl >= 0 && !bytes.HasPrefix(bytes.TrimSpace(src[:nl+1][bytes.LastIndexByte(src[:nl], '\n')+1:]), []byte("package ")) {
+		next := bytes.IndexByte(src[nl+1:], '\n')
+		if next < 0 {
+			return ""
+		}
+		nl += 1 + next
+	}
+	if nl < 0 || fd.from <= nl {
+		return ""
+	}
+	ins := []byte("import " + pkgName + " \"" + path + "\"\n")
+	patched := append(append(append(append(append([]byte(nil), src[:nl+1]...), ins...), src[nl+1:fd.from]...), repl...), src[fd.to:]...)
+	penv, err := loadDir(dir, map[string][]byte{fd.file: patched})
+	if err != nil {
+		return ""
+	}
+	if penv.errs > 0 {
+		if regexp.MustCompile(`imported( as \w+)? and not used`).MatchString(penv.firstErr) || strings.Contains(penv.firstErr, "redeclared") {
+			return ""
+		}
+		lastImportErr = penv.firstErr
+		return "fix-breaks-type-check-beyond-the-import:" + shapeOf(src[fd.from:fd.to])
+	}
+	if origExpr == nil {
+		return ""
+	}
+	ot := env.info.TypeOf(origExpr)
+	start := fd.from + len(ins)
+	for _, pf := range penv.files {
+		if penv.fset.Position(pf.Pos()).Filename != fd.file {
+			continue
+		}
+		base := penv.fset.File(pf.Pos()).Base()
+		np, exact := astutil.PathEnclosingInterval(pf, token.Pos(base+start), token.Pos(base+start+len(repl)))
+		if !exact || len(np) == 0 {
+			return ""
+		}
+		if ne, ok := np[0].(ast.Expr); ok {
+			nt := penv.info.TypeOf(ne)
+			if ot != nil && nt != nil && typeKey(types.Default(ot)) != typeKey(types.Default(nt)) {
+				return "fix-changes-expression-type"
 			}
 		}
 	}
